@@ -640,6 +640,100 @@ def over_reads(ctx, modnames):
     return out
 
 
+def fixed_chunk_reads(ctx, modnames):
+    """`x.read(K)` with K a literal or a module-level constant, inside a loop or comprehension of a function that afterwards cuts the
+    collected bytes back (`[:n]`): the number of bytes taken is a multiple of K whatever is still missing, so the last chunk takes
+    bytes that belong to what follows, and the cut hides it (a chunked reader asks for min(remaining, K)).  One-byte reads are exempt."""
+    out = []
+    for mn in modnames:
+        src = ctx.sm.get(mn)
+        if src is None:
+            continue
+        qidx = qualname_index(src.tree)
+        consts = {}
+        for st in src.tree.body:
+            tgt = st.targets[0] if isinstance(st, ast.Assign) and len(st.targets) == 1 else st.target if isinstance(st, ast.AnnAssign) else None
+            if isinstance(tgt, ast.Name) and getattr(st, "value", None) is not None:
+                try:
+                    v = eval(compile(ast.Expression(st.value), "<const>", "eval"), {"__builtins__": {}}, {})  # literals and arithmetic on them only
+                except Exception:  # noqa: BLE001
+                    continue
+                if isinstance(v, int) and not isinstance(v, bool):
+                    consts[tgt.id] = v
+
+        def const_of(e):
+            if isinstance(e, ast.Constant) and isinstance(e.value, int) and not isinstance(e.value, bool):
+                return e.value
+            if isinstance(e, ast.Name) and e.id in consts:
+                return consts[e.id]
+            return None
+
+        def visit(node, in_loop):
+            for ch in ast.iter_child_nodes(node):
+                loop = in_loop or isinstance(ch, (ast.For, ast.While, ast.ListComp, ast.GeneratorExp, ast.SetComp, ast.DictComp))
+                if isinstance(ch, (ast.FunctionDef, ast.Lambda)):
+                    visit(ch, False)
+                    continue
+                if in_loop and isinstance(ch, ast.Call) and isinstance(ch.func, ast.Attribute) and ch.func.attr in ("read", "recv", "read1") and len(ch.args) == 1:
+                    k = const_of(ch.args[0])
+                    q, _fn = enclosing(qidx, src.tree, ch)
+                    # whole chunks are an over-read when what was collected is cut back afterwards (`[:n]`): a loop that reads `count`
+                    # items of K bytes each, and keeps them all, asks for exactly what it needs
+                    trims = _fn is not None and any(isinstance(x, ast.Subscript) and isinstance(x.slice, ast.Slice) and x.slice.lower is None
+                                                    and x.slice.upper is not None for x in ast.walk(_fn))
+                    if k is not None and k > 1 and trims:
+                        out.append({"function": f"{mn}:{q}", "stmt": ast.unparse(ch)[:100], "file": src.rel, "line": ch.lineno, "size": k})
+                visit(ch, loop)
+        visit(src.tree, False)
+    return out
+
+
+def minus_zero_slices(ctx, modnames):
+    """`x[-r:]` where r is a remainder (`a % b`, `divmod(a, b)[1]`) and the slice is not guarded by a test of r: for r == 0 the slice
+    is `x[0:]`, the WHOLE sequence, not the empty tail."""
+    out = []
+    for mn in modnames:
+        src = ctx.sm.get(mn)
+        if src is None:
+            continue
+        qidx = qualname_index(src.tree)
+        for fn in [n for n in ast.walk(src.tree) if isinstance(n, (ast.FunctionDef, ast.AsyncFunctionDef))]:
+            rem = set()
+            for st in ast.walk(fn):
+                if isinstance(st, ast.Assign) and len(st.targets) == 1:
+                    t, v = st.targets[0], st.value
+                    if isinstance(t, ast.Name) and isinstance(v, ast.BinOp) and isinstance(v.op, ast.Mod):
+                        rem.add(t.id)
+                    if isinstance(t, ast.Tuple) and len(t.elts) == 2 and isinstance(v, ast.Call) and ast.unparse(v.func) == "divmod" \
+                            and isinstance(t.elts[1], ast.Name):
+                        rem.add(t.elts[1].id)
+            if not rem:
+                continue
+
+            def visit(node, guarded):
+                for ch in ast.iter_child_nodes(node):
+                    g = set(guarded)
+                    if isinstance(ch, ast.If):
+                        names = {n.id for n in ast.walk(ch.test) if isinstance(n, ast.Name)} & rem
+                        for sub in ch.body:
+                            visit_stmt(sub, g | names)
+                        for sub in ch.orelse:
+                            visit_stmt(sub, g)
+                        continue
+                    visit_stmt(ch, g)
+
+            def visit_stmt(ch, g):
+                if isinstance(ch, ast.Subscript) and isinstance(ch.slice, ast.Slice) and ch.slice.upper is None and \
+                        isinstance(ch.slice.lower, ast.UnaryOp) and isinstance(ch.slice.lower.op, ast.USub) and \
+                        isinstance(ch.slice.lower.operand, ast.Name) and ch.slice.lower.operand.id in rem and ch.slice.lower.operand.id not in g:
+                    q, _f = enclosing(qidx, src.tree, ch)
+                    out.append({"function": f"{mn}:{q}", "stmt": ast.unparse(ch)[:100], "file": src.rel, "line": ch.lineno,
+                                "name": ch.slice.lower.operand.id})
+                visit(ch, g)
+            visit(fn, set())
+    return out
+
+
 # ------------------------------------------------------------------ error discipline of the generator's driver
 FS_CALLS = {"rmtree", "mkdir", "unlink", "rmdir", "makedirs", "remove", "touch"}
 FS_ABSENCE = {"FileNotFoundError", "FileExistsError"}
